@@ -85,6 +85,7 @@ struct KBase
     template <class W, class V> static void assign(W& w, V&& v) { w = std::forward<V>(v); }
     template <class W, class P> static void assign_vw(W&, int, bool, P*) {}
     template <class PT> static decltype(auto) ptr_prim(PT& p) { return *p; }
+    template <class W> static W& copy_src(W& w) { return w; }
 };
 
 template <class P> struct copyable : std::is_copy_constructible<P> {};
@@ -301,6 +302,11 @@ struct K_mask : KBase
         xtl::xmasked_value<P, bool> mv(P(v), true);
         w = mv;
     }
+    // `using std::swap; swap(a, b)` is ambiguous for xmasked_value<T, B> of values (std::swap vs xtl::swap<T1,B1,T2,B2>): use the member
+    template <class W> static void swap(W& a, W& b) { a.swap(b); }
+    // copy-constructing from a NON-const lvalue selects the converting constructor xmasked_value(T1&&), which is ill-formed when the
+    // flag is a reference (m_visible(true)); copy from a const lvalue (implicit copy constructor) in that flavour
+    template <class W> static std::conditional_t<FLAG_LVALUE, const W&, W&> copy_src(W& w) { return w; }
     template <class W, class WD> static bool secondary(W& w, WD& wd, int which, std::string& why)
     {
         const bool* f = &w.visible();
@@ -334,6 +340,8 @@ struct K_maskf : KBase
         OBS(std::move(cst(w)).visible());
     }
     template <class W, class V> static void assign(W& w, V&& v) { w.visible() = std::forward<V>(v); }
+    template <class W> static void swap(W& a, W& b) { a.swap(b); }
+    template <class W> static const W& copy_src(W& w) { return w; }   // see K_mask::copy_src
     template <class W, class WD> static bool secondary(W& w, WD& wd, int which, std::string& why)
     {
         if (&w.value() != (which ? &wd.vy : &wd.vx)) { why = "value() does not designate the value the masked value was built from"; return false; }
@@ -747,7 +755,7 @@ struct Run
             break;
         case COPY_CONS:
             static_if(bool_<caps::copy_cons>(), [&](auto& w_) {
-                std::remove_reference_t<decltype(w_)> c(w_);
+                std::remove_reference_t<decltype(w_)> c(K::copy_src(w_));
                 H hc = h;
                 if (!h.alias) { this->cells.push_back(this->cells[h.cell]); hc.cell = int(this->cells.size()) - 1; }
                 if (h.alias && trk && registry::get().special_calls() != 0)
@@ -790,7 +798,7 @@ struct Run
             break;
         case ADDR_RV:
             static_if(bool_<caps::addr_rv && caps::copy_cons>(), [&](auto& w_) {
-                std::remove_reference_t<decltype(w_)> t(w_);
+                std::remove_reference_t<decltype(w_)> t(K::copy_src(w_));
                 auto p = &std::move(t);
                 const P& r = K::ptr_prim(p);
                 const void* a = &r;
